@@ -2,7 +2,7 @@
     the boolean [validb] reflects [Valid]; bridge from correspondence to the property. *)
 From Coq Require Import ZifyBool Btauto.
 From V.Lib Require Import Base Hex.
-From V.C19 Require Import Model Spec Bits Expand Rows Decode Tree Flat Corr Wf Proofs.
+From V.C19 Require Import Compact Model Spec Bits Expand Rows Decode Tree Flat Corr Wf Proofs.
 Local Open Scope N_scope.
 Ltac Zify.zify_post_hook ::= Z.to_euclidean_division_equations.
 
@@ -199,6 +199,48 @@ Proof.
     apply B; lia.
 Qed.
 
+
+(** ** Block header: the sequential reader yields exactly the slices of the layout *)
+Lemma firstn_app_skipn {A} a b (l : list A) : firstn a l ++ firstn b (skipn a l) = firstn (a + b) l.
+Proof.
+  revert l. induction a as [|a IH]; intros l; [reflexivity|].
+  destruct l as [|x l]; [cbn; rewrite firstn_nil; reflexivity|].
+  cbn [firstn skipn plus app]. f_equal. apply IH.
+Qed.
+Lemma firstn_app_skipn_k {A} k a b (l : list A) :
+  firstn a (skipn k l) ++ firstn b (skipn (k + a) l) = firstn (a + b) (skipn k l).
+Proof. rewrite <- skipn_skipn'. apply firstn_app_skipn. Qed.
+
+Lemma takek m k raw : (0 < m)%nat ->
+  take m (skipn k raw) =
+  if (length raw <? k + m)%nat then None else Some (firstn m (skipn k raw), skipn (k + m) raw).
+Proof.
+  intros Hm. unfold take. rewrite skipn_length, skipn_skipn'.
+  destruct (Nat.ltb_spec (length raw - k) m), (Nat.ltb_spec (length raw) (k + m)); try lia; reflexivity.
+Qed.
+
+Lemma read_header_eq raw : read_header raw = hdr_fields raw.
+Proof.
+  unfold read_header, hdr_fields.
+  change (take 4 raw) with (take 4 (skipn 0 raw)).
+  Ltac hstep := rewrite takek by lia;
+    match goal with |- context [(length ?r <? ?a + ?b)%nat] =>
+      destruct (Nat.ltb_spec (length r) (a + b));
+      [ replace (length r <? 140)%nat with true by (symmetry; apply Nat.ltb_lt; cbn in *; lia); reflexivity | ] end.
+  hstep. hstep. hstep. hstep. hstep. hstep. hstep.
+  cbn [plus] in *.
+  replace (length raw <? 140)%nat with false by (symmetry; apply Nat.ltb_ge; lia).
+  destruct (read_compact (skipn 140 raw)) as [[l c8]|]; [|reflexivity].
+  unfold take. destruct (length c8 <? N.to_nat l)%nat; [reflexivity|].
+  f_equal. f_equal. f_equal.
+  change (firstn 4 (skipn 0 raw)) with (firstn 4 raw).
+  change 104%nat with (100 + 4)%nat at 1. rewrite (firstn_app_skipn_k 100 4 4).
+  change 100%nat with (68 + 32)%nat at 1. rewrite (firstn_app_skipn_k 68 32 8).
+  change 68%nat with (36 + 32)%nat at 1. rewrite (firstn_app_skipn_k 36 32 40).
+  change 36%nat with (4 + 32)%nat at 1. rewrite (firstn_app_skipn_k 4 32 72).
+  apply (firstn_app_skipn 4 104).
+Qed.
+
 (** ** Bridge: correspondence on a well-formed case implies the property on that case *)
 Lemma res_eqb_eq (a b : res) : res_eqb a b = true -> a = b.
 Proof.
@@ -213,7 +255,8 @@ Proof. unfold is_bytes, is_byte. intros E. apply Forall_forall. intros x Hx. rew
 
 Theorem bridge c : wf_case c = true -> run_case c = true -> prop_case c = true.
 Proof.
-  destruct c as [n k input nonce soln t o]. cbn [wf_case run_case prop_case].
+  destruct c as [n k input nonce soln t o | raw frag o]; cbn [wf_case run_case prop_case];
+    [| intros _ R; rewrite <- read_header_eq; exact R].
   rewrite !andb_true_iff. intros ((((((_ & _) & _) & _) & Bs) & _) & Hd) R.
   apply res_eqb_eq in R. apply is_bytes_P in Bs.
   destruct (params_okb n k) eqn:P; cbn [negb andb] in *.
